@@ -18,6 +18,7 @@ pub fn cells(prop: &str, t: bool, dir: &str) -> Vec<CellDef> {
             v.extend(vpchecks::spell::c17_p16(t));
             v.extend(vpchecks::spell::c17_p32(t));
             v.extend(vpchecks::spell::c17_types());
+            v.extend(vpchecks::spell::c17_conv(t));
             v
         }
         "C01" => per_type(c01::<P8E0>, c01::<P16E1>, c01::<P32E2>, t),
